@@ -267,13 +267,13 @@ std::string materialLabel(const ref::Pos& p) {
 }
 
 // ---- seq: command sequences -----------------------------------------------------------------------------------
-enum Kind { MAKE, UNMAKE, UNMAKE_ALL, NULLMV, EDIT, EVAL, EVAL2, NNRAW, ASSIGN, MOVE_ASSIGN, RECONNECT1, RECONNECT2, FENRT, CONTEMPT, POLLUTE, RESET, RESET_MOVE };
+enum Kind { MAKE, UNMAKE, UNMAKE_ALL, NULLMV, EDIT, EVAL, EVAL2, NNRAW, ASSIGN, MOVE_ASSIGN, RECONNECT1, RECONNECT2, FENRT, CONTEMPT, POLLUTE, RESET, RESET_MOVE, CLOCK };
 struct EditStep { int sq; char pc; };   // set square sq to pc ('.' = empty)
 struct Op {
     Kind k;
     ref::Move m;
     std::vector<EditStep> ed;
-    int a = 0, b = 0; // CONTEMPT: a = value; POLLUTE: a = corpus offset, b = count
+    int a = 0, b = 0; // CONTEMPT: a = value; POLLUTE: a = corpus offset, b = count; CLOCK: a = new half-move clock
 };
 
 std::string opStr(const Op& o) {
@@ -295,6 +295,7 @@ std::string opStr(const Op& o) {
     case RESET_MOVE: return "resetmove";
     case CONTEMPT: return "c:" + std::to_string(o.a);
     case POLLUTE: return "pollute:" + std::to_string(o.a) + ":" + std::to_string(o.b);
+    case CLOCK: return "hmc:" + std::to_string(o.a);
     }
     return "?";
 }
@@ -303,6 +304,7 @@ bool opParse(const std::string& s, Op& o) {
     o.k = UNMAKE;
     if (s.rfind("m:", 0) == 0) { o.k = MAKE; o.m = ref::Move::fromUci(s.substr(2)); return o.m.valid(); }
     if (s.rfind("c:", 0) == 0) { o.k = CONTEMPT; o.a = atoi(s.c_str() + 2); return true; }
+    if (s.rfind("hmc:", 0) == 0) { o.k = CLOCK; o.a = atoi(s.c_str() + 4); return o.a >= 0 && o.a <= 200; }
     if (s.rfind("pollute:", 0) == 0) { o.k = POLLUTE; return sscanf(s.c_str() + 8, "%d:%d", &o.a, &o.b) == 2 && o.a >= 0 && o.b >= 0; }
     if (s.rfind("edit:", 0) == 0) {
         o.k = EDIT;
@@ -375,6 +377,7 @@ struct Model {
         p = q;
         return true;
     }
+    void clock(int h) { stack.push_back({p, 3, ref::Move(), {}}); p.hmc = h; }
     void unmake() { p = stack.back().before; stack.pop_back(); }
 };
 
@@ -500,6 +503,17 @@ Case decodeSeq(Choices& c, bool promoRace, int maxSteps, int maxPollute) {
             while (!md.stack.empty()) md.unmake();
             hist.resize(1);
         }
+        else if (r < makeW + 41 && (int)md.stack.size() < MAX_DEPTH && c.chance(1, 2)) {
+            // the same men with another half-move clock: the evaluation scales with clock/10 when pawns are present and the
+            // evaluation hash is keyed by Position::historyHash(), which folds the clock in the same steps
+            int w = c.pick(6);
+            int h = w == 0 ? c.range(0, 110) : w == 1 ? std::min(110, md.p.hmc + 1) : w == 2 ? std::max(0, md.p.hmc - 1)
+                  : w == 3 ? 10 * c.range(1, 10) - 1 : w == 4 ? 10 * c.range(0, 10) : 10 * c.range(0, 10) + c.range(0, 9);
+            push(EVAL);
+            push(CLOCK).a = h; md.clock(h); hist.push_back(md.p);
+            push(EVAL);
+            continue;
+        }
         else if (r < makeW + 42) {
             Op& o = push(CONTEMPT);
             int w = c.pick(4);
@@ -563,7 +577,7 @@ struct SeqRunner {
 
     struct Flags {
         bool kingMoveEval = false, overflow = false, deepEval = false, underflow = false, castle = false, capPromo = false, ep = false,
-             nullEval = false, cacheHit = false, reset = false, pollute = false, bigPollute = false, contemptSwitch = false, kingCross = false, edit = false, sixQueens = false;
+             nullEval = false, cacheHit = false, reset = false, pollute = false, bigPollute = false, contemptSwitch = false, kingCross = false, edit = false, sixQueens = false, clockEdit = false;
     } f;
 
     void run(const std::string& sub, const Case& k) {
@@ -601,6 +615,8 @@ struct SeqRunner {
                 pos->setHalfMoveClock(en.nullHmc);
             } else if (en.kind == 2) {
                 for (auto& e : en.undo) pos->setPiece(Square(e.sq), texelPiece(e.pc));
+            } else if (en.kind == 3) {
+                pos->setHalfMoveClock(en.nullHmc);
             } else {
                 if (NNTest::stackTop(nn) == 0) f.underflow = true;
                 pos->unMakeMove(en.m, en.ui);
@@ -669,6 +685,15 @@ struct SeqRunner {
                 stack.push_back(en);
                 f.edit = true;
                 st.count("steps:edit");
+                break;
+            }
+            case CLOCK: {   // the half-move clock is set directly (as TextIO::readFEN and the null-move code do); undoable
+                Entry en; en.kind = 3; en.nullHmc = pos->getHalfMoveClock();
+                pos->setHalfMoveClock(op.a);
+                stack.push_back(en);
+                md.clock(op.a);
+                f.clockEdit = true;
+                st.count("steps:clock-edit");
                 break;
             }
             case EVAL: case EVAL2: {
@@ -824,6 +849,7 @@ struct SeqRunner {
         if (f.bigPollute) st.clsSample("pollution with >= 1000 other positions", mk);
         if (f.contemptSwitch) st.cls("contempt changed with shared caches");
         if (f.edit) st.cls("direct setPiece edit of the connected position");
+        if (f.clockEdit) st.cls("same men evaluated under several half-move clocks");
         if (f.reset) st.cls("another position assigned into the connected one");
         if (f.sixQueens) st.cls(">=6 queens of one colour");
         bool nt = f.kingMoveEval || f.overflow || f.deepEval;
